@@ -426,6 +426,11 @@ func TestC02(t *testing.T) {
 				t.Fatalf("harness: %v", err)
 			}
 			withKeys([]*hello.Key{ck}, "sub:suite_not_offered", fmt.Sprintf("the client used suite (1,%d) but the config offers only (1,%d) and (2,%d)", b, a, b), hello.Record(22, sc.RecVer, mx))
+			// the same hello to a server that also holds, earlier in its list, a key under another
+			// config id whose config does offer (1,b): what another key's config lists is not an offer
+			permissive := drawKey(t, "permissive", int(ck.ID)+1, ck.PublicName)
+			permissive, _ = hello.NewKey(permissive.Priv.Bytes(), ck.ID+1, ck.PublicName, hello.AllSuites)
+			withKeys([]*hello.Key{permissive, ck}, "sub:suite_not_offered", fmt.Sprintf("the client used suite (1,%d) which only the config of an earlier key with another id offers; the named config offers (1,%d) and (2,%d)", b, a, b), hello.Record(22, sc.RecVer, mx))
 			// control: the offered suite (1,a) is accepted with the same key
 			sly, _ := hello.NewSealer(ck.Config, ck.Priv.PublicKey().Bytes(), hello.Suite{KDF: 1, AEAD: a}, ck.ID)
 			oy := sc.Tuple.Outer.Clone()
